@@ -14,6 +14,9 @@ From SV Require Import Fmt.VtfFrameSM Fmt.VtfFrameSMProofs Gen.VtfFrameSM_gen.
 From SV Require Import Bin.Struct Fmt.VtfContainer Fmt.VtfContainerProofs Gen.VtfContainer_gen.
 From SV Require Import Fmt.VtfSides Fmt.VtfSidesProofs.
 From SV Require Import Fmt.VtfWholeFile Fmt.VtfWholeFileProofs Fmt.VtfSheetProofs.
+From SV Require Import Fmt.VtfAccess Fmt.VtfAccessProofs Gen.VtfAccess_gen Fmt.VtfAccessGenProofs.
+From SV Require Import Fmt.VtfBluescreen Fmt.VtfBluescreenProofs.
+From SV Require Import Fmt.VtfFrameCodec Fmt.VtfFrameCodecProofs Fmt.VtfPixelsInFileProofs.
 Import ListNotations.
 
 (** ** Pixels *)
@@ -427,3 +430,189 @@ Example c15_save_events_inhabited : save_events_ok good_save_events = true.
 Proof. exact save_events_inhabited. Qed.
 Theorem c15_late_offsets_refuted : low_high_ok late_low_events = false /\ set_then_block res_key late_block_events = false.
 Proof. exact late_offsets_refuted. Qed.
+
+(** ** Round 4: every pixel access path has the same address map ("every pixel access is bounds-checked")
+
+    A frame's pixels are one flat array; [frame[x, y]], the buffer protocol ([memoryview(frame)], numpy), [to_PIL()],
+    [to_tkinter()], the wx converters, the codecs and [scale_down] each have their own idea of rows and columns.
+    translate/c15_access.py makes a census of EVERY use of [<frame>._data] in vtf.py (fail-closed) and regenerates, per
+    site, what the site uses as number of rows, of columns and of bytes per pixel ([gen_paths]).  [path_ok] - rows = the
+    frame's height, columns = its width, 4 bytes - is an instance obligation per site. *)
+Open Scope Z_scope.
+(** a path that passes accepts exactly [0,width) x [0,height) x [0,4) and addresses byte 4*(y*width + x) + c *)
+Theorem c15_path_address_map : forall p, path_ok p = true ->
+  forall w h f x y c,
+    path_accepts p w h f x y c = inside w h x y c /\ path_off p w h f x y c = canon_off w x y c.
+Proof. exact path_address_map. Qed.
+(** that byte lies inside the array, and two coordinates of the frame never share a byte *)
+Theorem c15_canon_in_buffer : forall w h x y c, inside w h x y c = true -> 0 <= canon_off w x y c < 4 * w * h.
+Proof. exact canon_in_buffer. Qed.
+Theorem c15_canon_injective : forall w h x y c x' y' c',
+  inside w h x y c = true -> inside w h x' y' c' = true ->
+  canon_off w x y c = canon_off w x' y' c' -> x = x' /\ y = y' /\ c = c'.
+Proof. exact canon_injective. Qed.
+(** an item path whose rejection test passes [bounds_exact] accepts EXACTLY the coordinates of the frame
+    (round 1 proved "only"; a test that also rejects coordinates inside the frame now fails an obligation) *)
+Theorem c15_item_accepts_exactly : forall ds, bounds_exact ds = true ->
+  forall x y w h, rejects ds x y w h = false <-> (0 <= x < w /\ 0 <= y < h).
+Proof. exact item_accepts_exactly. Qed.
+(** the whole census, instantiated with the generated objects: written through one path and read through any other gives
+    the value back at the same coordinate and leaves every other coordinate alone; a coordinate is accepted by one path
+    iff it is accepted by every other and by frame[x, y] / frame[x, y] = p; all address the bytes of pixel_off; inside the array *)
+Theorem c15_every_pixel_path_agrees :
+  forallb path_ok gen_paths = true -> bounds_exact getitem_reject = true -> bounds_exact setitem_reject = true ->
+  forall w h,
+    (forall p q, In p gen_paths -> In q gen_paths -> forall f g (b : buf) x y c v,
+        path_accepts p w h f x y c = path_accepts q w h g x y c
+        /\ (path_accepts p w h f x y c = true ->
+            bget (bset b (path_off p w h f x y c) v) (path_off q w h g x y c) = v
+            /\ forall x' y' c', path_accepts q w h g x' y' c' = true -> (x', y', c') <> (x, y, c) ->
+                 bget (bset b (path_off p w h f x y c) v) (path_off q w h g x' y' c') = bget b (path_off q w h g x' y' c')))
+    /\ (forall p, In p gen_paths -> forall f x y c, 0 <= c < 4 ->
+          (rejects getitem_reject x y w h = false <-> path_accepts p w h f x y c = true)
+          /\ (rejects setitem_reject x y w h = false <-> path_accepts p w h f x y c = true)
+          /\ path_off p w h f x y c = getitem_off x y w h + c
+          /\ path_off p w h f x y c = setitem_off x y w h + c
+          /\ (path_accepts p w h f x y c = true -> 0 <= path_off p w h f x y c < 4 * w * h)).
+Proof. exact gen_every_pixel_path_agrees. Qed.
+(** the shape of seeded fault c15_6 (rows and columns exchanged) on an 8x2 frame: the far corner is refused, a row below
+    the frame is accepted, an accepted coordinate addresses another pixel *)
+Theorem c15_transposed_path_refuted :
+  path_ok transposed_path = false
+  /\ inside 8 2 7 1 3 = true /\ path_accepts transposed_path 8 2 0 7 1 3 = false
+  /\ inside 8 2 0 2 0 = false /\ path_accepts transposed_path 8 2 0 0 2 0 = true
+  /\ path_accepts transposed_path 8 2 0 1 1 0 = true /\ path_off transposed_path 8 2 0 1 1 0 = canon_off 8 3 0 0
+  /\ canon_off 8 1 1 0 <> canon_off 8 3 0 0.
+Proof. exact transposed_path_refuted. Qed.
+Example c15_path_ok_inhabited : path_ok good_path = true.
+Proof. exact good_path_ok. Qed.
+Theorem c15_rejecting_inside_refuted :
+  bounds_exact [(BX, CLt, BZero); (BX, CGe, BWidth); (BY, CLt, BZero); (BY, CGe, BHeight); (BX, CGe, BHeight)] = false
+  /\ rejects [(BX, CLt, BZero); (BX, CGe, BWidth); (BY, CLt, BZero); (BY, CGe, BHeight); (BX, CGe, BHeight)] 7 1 8 2 = true.
+Proof. exact rejecting_inside_refuted. Qed.
+(** every allocation of a pixel array ([_BLANK_PIXEL * n], [colour * n]) makes 4 * width * height bytes *)
+Theorem c15_every_allocation_has_4wh_bytes :
+  forallb (fun a => alloc_ok 4 (snd a)) gen_allocs = true ->
+  forall a, In a gen_allocs -> forall w h f, prod_val (snd a) w h f = 4 * w * h.
+Proof. exact gen_every_allocation_has_4wh_bytes. Qed.
+Theorem c15_alloc_foreign_refuted : alloc_ok 1 [DW; DW] = false /\ prod_val [DW; DW] 8 2 0 <> 1 * 8 * 2.
+Proof. exact alloc_foreign_refuted. Qed.
+(** a whole pixel array is copied from another frame exactly when both have the same width and the same height *)
+Theorem c15_every_frame_copy_is_between_equal_sizes :
+  forallb (fun g => copy_guard_ok (snd g)) gen_copy_guards = true ->
+  forall g, In g gen_copy_guards -> forall w h w' h', guard_rejects (snd g) w h w' h' = false <-> (w = w' /\ h = h').
+Proof. exact gen_every_frame_copy_is_between_equal_sizes. Qed.
+Theorem c15_copy_guard_width_only_refuted :
+  copy_guard_ok [(GSelfW, GSrcW)] = false /\ guard_rejects [(GSelfW, GSrcW)] 8 2 8 4 = false.
+Proof. exact copy_guard_width_only_refuted. Qed.
+
+(** ** Round 4: the two keyed ("bluescreen") formats, until now only searched
+
+    [save] stores a pixel whose alpha is below 128 as pure blue and any other pixel as its colour; [load] turns a stored
+    pure blue into transparent black and anything else into the colour with alpha 255.  The per-pixel [if] statements are
+    translated into [ETest] chains ([x < 128] = bit 7 clear, [x == c] = all eight bits agree: valid for bytes) and compared
+    with the hand-written codec by [bs_ok] (instance obligation per format; [bgr] = stored as b, g, r). *)
+Open Scope N_scope.
+Theorem c15_bluescreen_load_of_save : forall bgr c, bs_ok bgr c = true ->
+  forall r g b a, r < 256 -> g < 256 -> b < 256 -> a < 256 ->
+    run (load_e c) (run (save_e c) [r; g; b; a]) = bluescreen_q r g b a
+    /\ run (save_e c) [r; g; b; a] = in_order bgr (bluescreen_stored r g b a)
+    /\ bytes (run (save_e c) [r; g; b; a]) /\ length (run (save_e c) [r; g; b; a]) = bpp c.
+Proof. exact bs_load_of_save. Qed.
+(** 8 bits per used channel: an opaque pixel (alpha >= 128) that is not the key colour keeps r, g, b exactly *)
+Theorem c15_bluescreen_exact_on_opaque_non_blue : forall bgr c, bs_ok bgr c = true ->
+  forall r g b a, r < 256 -> g < 256 -> b < 256 -> a < 256 -> 128 <= a -> (r, g, b) <> (0, 0, 255) ->
+    run (load_e c) (run (save_e c) [r; g; b; a]) = [r; g; b; 255].
+Proof. exact bs_exact_on_opaque_non_blue. Qed.
+(** storing loaded pixels again changes nothing, for every three stored bytes; and a second round trip changes nothing *)
+Theorem c15_bluescreen_stored_fixpoint : forall bgr c, bs_ok bgr c = true ->
+  forall r g b, r < 256 -> g < 256 -> b < 256 ->
+    run (save_e c) (run (load_e c) (in_order bgr [r; g; b])) = in_order bgr [r; g; b].
+Proof. exact bs_stored_fixpoint. Qed.
+Theorem c15_bluescreen_second_round_trip : forall bgr c, bs_ok bgr c = true ->
+  forall r g b a, r < 256 -> g < 256 -> b < 256 -> a < 256 ->
+    run (save_e c) (run (load_e c) (run (save_e c) [r; g; b; a])) = run (save_e c) [r; g; b; a].
+Proof. exact bs_second_round_trip. Qed.
+Example c15_bluescreen_inhabited : bs_ok false (bs_codec false) = true /\ bs_ok true (bs_codec true) = true /\ wf (bs_codec false) = true /\ wf (bs_codec true) = true.
+Proof. exact bs_ok_inhabited. Qed.
+(** the nearby wrong shape (alpha tested on bit 6) is not accepted and stores other bytes; and the documented behaviour is
+    NOT the identity on an opaque pure-blue pixel: it comes back transparent black (the format cannot store it) *)
+Theorem c15_bluescreen_wrong_bit_refuted :
+  bs_ok false {| bpp := 3; save_e := bs_save_bit6; load_e := bs_load false |} = false
+  /\ run bs_save_bit6 [1; 2; 3; 64] = [1; 2; 3] /\ bluescreen_stored 1 2 3 64 = [0; 0; 255]
+  /\ run bs_save_bit6 [1; 2; 3; 128] = [0; 0; 255]
+  /\ bluescreen_q 0 0 255 255 = [0; 0; 0; 0].
+Proof. exact bs_wrong_bit_refuted. Qed.
+
+(** ** Round 4: from one pixel to every frame of a file
+
+    [encode_frame] / [decode_frame]: a frame is stored as the concatenation of its pixels' stored bytes (the only loop shape
+    the codec translator accepts).  The per-pixel laws lifted to frames of any size, then composed with the container: *)
+Theorem c15_frame_load_of_save : forall c q, rt_ok c q = true -> (0 < bpp c)%nat ->
+  forall ps, Forall bytes ps ->
+    decode_frame c (encode_frame c ps) = map (run q) ps
+    /\ bytes (encode_frame c ps) /\ length (encode_frame c ps) = (bpp c * length ps)%nat.
+Proof. exact frame_load_of_save. Qed.
+Theorem c15_frame_stored_fixpoint : forall c q canon, rt_ok c q = true -> sf_ok c canon = true -> (0 < bpp c)%nat ->
+  forall ps, Forall bytes ps ->
+    encode_frame c (decode_frame c (encode_frame c ps)) = encode_frame c ps.
+Proof. exact frame_stored_fixpoint. Qed.
+(** 8 bits per used channel (identity specification): the whole frame comes back unchanged *)
+Theorem c15_frame_exact : forall c, rt_ok c spec_rgba = true -> (0 < bpp c)%nat ->
+  forall ps, Forall bytes ps -> Forall (fun p => length p = 4%nat) ps -> decode_frame c (encode_frame c ps) = ps.
+Proof. exact frame_exact. Qed.
+(** THE PIXEL HALF OF THE PROPERTY IN ONE STATEMENT.  Formats F, flag expressions G, side lists c, loop nests so/ro and the
+    codec cd are the objects regenerated from the source; their boolean premises are instance obligations of every run.
+    For any object version, written version, cubemap or volume, number of frames and levels, and any pixels: the file
+    save() writes is decoded by read(), and for EVERY (frame, side/depth, mipmap) that read() visits, decoding the bytes it
+    finds at the offset it computes gives, pixel by pixel, the documented quantisation [q] of the pixels that were saved
+    (the identity on the used channels for the 8-bit formats: c15_spec_rgba ...). *)
+Theorem c15_saved_pixels_read_back_73 : forall F G v low_size file c so ro cd q,
+  fmts_wf F = true -> flags_ok G = true -> (3 <= v_minor v)%Z -> vfile_fits F G v = true ->
+  sides_ok c = true -> lorder_eqb so ro = true ->
+  rt_ok cd q = true -> (0 < bpp cd)%nat ->
+  forall envmap object depth mips frames (pixels : key -> list (list N)) (npix : nat -> nat),
+    (forall k, Forall bytes (pixels k)) -> (forall k, List.length (pixels k) = npix (k_mip k)) ->
+    v_high v = map (fun k => encode_frame cd (pixels k)) (walk so mips frames (save_sides c envmap object (v_minor v) depth) key0) ->
+    encode_file F G v = Some file ->
+    (exists meta, decode_file F G low_size file = Some meta)
+    /\ Forall (fun ok => decode_frame cd (slice file (fst ok) (bpp cd * npix (k_mip (snd ok)))) = map (run q) (pixels (snd ok)))
+              (read_table ro mips frames (read_sides c envmap (v_minor v) depth) (fun m => (bpp cd * npix m)%nat) (high_off73 F v)).
+Proof. exact saved_pixels_read_back_73. Qed.
+Theorem c15_saved_pixels_read_back_pre73 : forall F G v file c so ro cd q,
+  fmts_wf F = true -> (v_minor v < 3)%Z -> vfile_fits_old F v = true ->
+  sides_ok c = true -> lorder_eqb so ro = true ->
+  rt_ok cd q = true -> (0 < bpp cd)%nat ->
+  forall envmap object depth mips frames (pixels : key -> list (list N)) (npix : nat -> nat),
+    (forall k, Forall bytes (pixels k)) -> (forall k, List.length (pixels k) = npix (k_mip k)) ->
+    v_high v = map (fun k => encode_frame cd (pixels k)) (walk so mips frames (save_sides c envmap object (v_minor v) depth) key0) ->
+    encode_file F G v = Some file ->
+    (exists meta, decode_file F G (List.length (v_low v)) file = Some meta)
+    /\ Forall (fun ok => decode_frame cd (slice file (fst ok) (bpp cd * npix (k_mip (snd ok)))) = map (run q) (pixels (snd ok)))
+              (read_table ro mips frames (read_sides c envmap (v_minor v) depth) (fun m => (bpp cd * npix m)%nat)
+                          (hs_old F v + List.length (v_low v))%nat).
+Proof. exact saved_pixels_read_back_pre73. Qed.
+(** non-vacuity of the frame level: the identity codec on a frame of two pixels *)
+Example c15_frame_inhabited :
+  let c := {| bpp := 4; save_e := ident 4; load_e := ident 4 |} in
+  rt_ok c spec_rgba = true /\ decode_frame c (encode_frame c [[1; 2; 3; 4]; [5; 6; 7; 8]]) = [[1; 2; 3; 4]; [5; 6; 7; 8]].
+Proof. exact frame_inhabited. Qed.
+
+(** ** Round 4: the frame table.  Every site of vtf.py that addresses [_frames] with a key (VTF.__init__, read, save,
+    compute_mipmaps, get) is regenerated with the ROLE of each key element ([gen_key_sites]; roles from the loop that binds the
+    name / the parameter it comes from); [key_ok] per site is an instance obligation. *)
+Open Scope Z_scope.
+Theorem c15_every_frame_key_agrees :
+  forallb (fun k => key_ok (snd k)) gen_key_sites = true ->
+  forall p q, In p gen_key_sites -> In q gen_key_sites ->
+  forall f s m o o', key_of (snd p) f s m o = [f; s; m] /\ key_of (snd q) f s m o' = key_of (snd p) f s m o.
+Proof. exact gen_every_frame_key_agrees. Qed.
+Theorem c15_swapped_key_refuted : key_ok [KMip; KSide; KFrame] = false /\ key_of [KMip; KSide; KFrame] 0 0 1 0 = [1; 0; 0].
+Proof. exact swapped_key_refuted. Qed.
+
+(** VTF.clear_mipmaps(after=a): the comparison of its loop is regenerated ([gen_clear_after]); exactly the levels with index
+    > a are erased (and regenerated from their parents by the chain theorem c15_save_writes_every_level), level a is kept *)
+Theorem c15_clear_after_exact : forall c, clear_after_ok c = true -> forall after m, clears c after m = true <-> after < m.
+Proof. exact clear_after_exact. Qed.
+Theorem c15_clear_after_ge_refuted : clear_after_ok CGe = false /\ clears CGe 0 0 = true.
+Proof. exact clear_after_ge_refuted. Qed.
